@@ -146,6 +146,30 @@ def vectors(ctx):
     return V
 
 
+def suite_recording(ctx):
+    """the repository's own test-suite, recorded call by call (pytest plugin living in /verif) - validated like any trace"""
+    import json
+    import os
+    import subprocess
+    import sys
+    from ..lanes import REPO
+    from ..core import VERIF
+    out = os.path.join(ctx.tmp, "suite.ndjson")
+    env = dict(os.environ, VERIF_RECORD=out, PYTHONPATH=VERIF + os.pathsep + os.path.join(REPO, "src"), PYTHONHASHSEED="0")
+    p = subprocess.run([sys.executable, "-m", "pytest", "-q", "-p", "no:cacheprovider", "-p", "vlib.record_plugin", "tests"],
+                       cwd=REPO, env=env, stdout=subprocess.PIPE, stderr=subprocess.STDOUT, text=True)
+    ctx.extra["suite_run"] = p.stdout.strip().splitlines()[-1] if p.stdout.strip() else "no output"
+    ev = []
+    if os.path.exists(out):
+        for k, line in enumerate(open(out)):
+            e = json.loads(line)
+            e["id"] = 5 * 10 ** 7 + k
+            e["case"] = ["suite", k]
+            ev.append(e)
+    ctx.extra["suite_calls_recorded"] = len(ev)
+    return ev
+
+
 def case_of(e):
     return (e["fn"],) + tuple(e["case"])
 
@@ -169,7 +193,10 @@ def run(ctx):
         k = {"e": "RuntimeError", "x": "other exception"}.get(e["res"]["t"], "value")
         ctx.extra["outcomes"][k] = ctx.extra["outcomes"].get(k, 0) + 1
     ctx.samples += [ev[0], ev[len(ev) // 3], ev[-1]]
-    ctx.judge(ctx.validate(ev))
+    sv = suite_recording(ctx)
+    for e in sv:
+        ctx.distinct.add(case_of(e))
+    ctx.judge(ctx.validate(ev + sv))
 
 
 replay = c01.replay
